@@ -394,6 +394,96 @@ func pathConds(b *ssa.BasicBlock) []pathCond {
 	return out
 }
 
+// A pathFact is a boolean SSA value (never a negation, never a short-circuit phi) known to be
+// true or false on every path to a block.
+type pathFact struct {
+	Cond  ssa.Value
+	Truth bool
+}
+
+// pathFacts is pathConds with the conditions taken apart: negations are peeled, and a condition that
+// is the value form of `a && b` / `a || b` (ok := lo <= f && f < hi; if !ok {...}) - a phi of
+// booleans all of whose edges but one carry the constant that contradicts the known truth - yields the
+// facts of that one edge: its value, and the conditions under which its predecessor block runs.
+func pathFacts(b *ssa.BasicBlock) []pathFact {
+	var out []pathFact
+	for _, pc := range pathConds(b) {
+		out = append(out, expandFact(pc.If.Cond, pc.Branch)...)
+	}
+	return out
+}
+
+// helperFacts: when a fact is the result of a call to a bool-returning function of the module with a
+// single return (func inRange(f Float) bool { return lo <= f && f < hi }), the facts about the callee's
+// parameters that follow from it; params[i] is the parameter that stands for argument i.
+func helperFacts(f pathFact) (facts []pathFact, callee *ssa.Function, args []ssa.Value) {
+	call, ok := f.Cond.(*ssa.Call)
+	if !ok {
+		return nil, nil, nil
+	}
+	h := call.Call.StaticCallee()
+	if h == nil || len(h.Blocks) == 0 || !strings.HasPrefix(fnPkgPath(h), modPath) || h.Signature.Results().Len() != 1 {
+		return nil, nil, nil
+	}
+	var ret *ssa.Return
+	n := 0
+	eachInstr(h, func(in ssa.Instruction) {
+		if r, ok := in.(*ssa.Return); ok {
+			ret = r
+			n++
+		}
+	})
+	if n != 1 {
+		return nil, nil, nil
+	}
+	return expandFact(ret.Results[0], f.Truth), h, call.Call.Args
+}
+
+// expandFact takes a boolean value known to be true (or false) apart, see pathFacts.
+func expandFact(v0 ssa.Value, truth0 bool) []pathFact {
+	var out []pathFact
+	seen := map[ssa.Value]bool{}
+	var expand func(v ssa.Value, truth bool, depth int)
+	expand = func(v ssa.Value, truth bool, depth int) {
+		v, neg := stripNot(v)
+		if neg {
+			truth = !truth
+		}
+		phi, ok := v.(*ssa.Phi)
+		if !ok || depth > 4 || seen[v] {
+			out = append(out, pathFact{v, truth})
+			return
+		}
+		seen[v] = true
+		live := -1
+		for i, e := range phi.Edges {
+			if k, ok := e.(*ssa.Const); ok && k.Value != nil && k.Value.Kind() == constant.Bool && constant.BoolVal(k.Value) != truth {
+				continue
+			}
+			if live >= 0 {
+				out = append(out, pathFact{v, truth})
+				return
+			}
+			live = i
+		}
+		if live < 0 {
+			return
+		}
+		expand(phi.Edges[live], truth, depth+1)
+		pred := phi.Block().Preds[live]
+		for _, pc := range pathConds(pred) {
+			expand(pc.If.Cond, pc.Branch, depth+1)
+		}
+		if len(pred.Instrs) > 0 {
+			if ifi, ok := pred.Instrs[len(pred.Instrs)-1].(*ssa.If); ok && pred.Succs[0] != pred.Succs[1] {
+				expand(ifi.Cond, pred.Succs[0] == phi.Block(), depth+1)
+			}
+		}
+	}
+	expand(v0, truth0, 0)
+	return out
+}
+
 // edgeDominates: does taking edge from->succ dominate block b?
 // True if succ dominates b and succ's only predecessor is from.
 func edgeDominates(from, succ, b *ssa.BasicBlock) bool {
